@@ -237,6 +237,39 @@ def _(case, F):
     return [t], (lambda: (t.copy(), nodes[0].copy() if nodes else None)), True, fy
 
 
+@cell("calc_id:index_access", lab="obj")
+def _(case, F):
+    fy = F(_objrule)
+    t, nodes = _build(case, calc=fy)
+    probe = nodes[-1].data if nodes else O("g0", "o0")
+
+    def run():
+        for fn in (lambda: probe in t, lambda: t[probe], lambda: t.__delitem__(probe)):
+            try:
+                fn()
+            except (KeyError, ValueError, LookupError):
+                pass  # absent / ambiguous keys are refusals of their own
+
+    return [t], run, False, fy
+
+
+@cell("calc_id:rename", lab="obj")
+def _(case, F):
+    fy = F(_objrule)
+    t, nodes = _build(case, calc=fy)
+    n = nodes[0] if nodes else t.add(O("gq", "q"))
+
+    def run():
+        try:
+            n.rename("renamed")
+        except Exception as e:
+            if type(e).__name__ in ("AmbiguousMatchError", "UniqueConstraintError"):
+                return
+            raise
+
+    return [t], run, False, fy
+
+
 # ---- predicate role --------------------------------------------------------------------------
 def _pred(n):
     return str(n.data) in ("a", "b", "n1", "n3") or None
@@ -254,6 +287,20 @@ def _(case, F):
     fy = F(_pred)
     t, nodes = _build(case)
     return [t], (lambda: nodes[0].filter(fy) if nodes else t.filter(fy)), False, fy
+
+
+@cell("predicate:typed_filter")
+def _(case, F):
+    fy = F(_pred)
+    t, nodes = _build(case, typed=True)
+    return [t], (lambda: t.filter(fy)), False, fy
+
+
+@cell("predicate:typed_copy")
+def _(case, F):
+    fy = F(_pred)
+    t, nodes = _build(case, typed=True)
+    return [t], (lambda: (t.copy(predicate=fy), t.filtered(fy))), True, fy
 
 
 @cell("predicate:filtered")
